@@ -9,10 +9,16 @@ CHECK = {'level': 'exploration',
          'checkpoints, requesters admin + 4 static users + 2 users with access() grants + 1 user with changing admin grants, up to 5 of 9 '
          'channel filters per requester (6-7 thorough), 7 cache states per checkpoint (as left by the history, cleared, 2 x tiny cache, small query '
          'limit, bypass, listener restarted); distinct_nontrivial = histories containing >= 1 access() grant and >= 1 '
-         'conflicting revision; feed part: 4 writers x 8-14 writes racing 3 continuous and 1 long-poll feed under the race detector',
+         'conflicting revision; feed part: 4 writers x 8-14 writes racing 3 continuous and 1 long-poll feed under the race detector; grants part: one '
+         'serial actor doing 26-38 operations per case (document writes over 5 documents, admin channel / admin role edits of 2 users incl. '
+         'same-size role swaps, admin channel edits of 3 roles, grant documents calling access()/role() for users and roles), half of them not '
+         'waiting for the cache, against 5 open continuous / long-poll feeds with wildcard and explicit filters; at each of ~8 checkpoints per case '
+         'bounded delivery for every open feed plus one-shot requests (since=0 and since=earlier checkpoints, 3 filters, 2 users) judged for '
+         'completeness (incl. back-fill of channels obtained after since) and soundness against the grant model',
  'parts': [{'name': 'cache', 'pkg': 'db', 'run': '^TestVerif_C01_Cache$', 'timeout_q': 600, 'timeout_t': 2400},
            {'name': 'db', 'pkg': 'db', 'run': '^TestVerif_C01_DB$', 'timeout_q': 600, 'timeout_t': 2400, 'env': {'SG_TEST_BUCKET_POOL_SIZE': '12'}},
-           {'name': 'feed', 'pkg': 'db', 'race': True, 'run': '^TestVerif_C01_Feed$', 'timeout_q': 600, 'timeout_t': 2400}],
+           {'name': 'feed', 'pkg': 'db', 'race': True, 'run': '^TestVerif_C01_Feed$', 'timeout_q': 600, 'timeout_t': 2400},
+           {'name': 'grants', 'pkg': 'db', 'race': True, 'run': '^TestVerif_C01_Grants$', 'timeout_q': 900, 'timeout_t': 3000}],
  'min_evals': 1000,
  'min_counters': {'cache.enumerated.states_checked_under_lock': 100000,
                   'cache.enumerated.reads_checked': 1000000,
@@ -33,7 +39,15 @@ CHECK = {'level': 'exploration',
                   'db.writes.conflict': 10,
                   'feed.entries_delivered': 100,
                   'feed.rounds_all_feeds_delivered_everything': 3,
-                  'feed.auditor_cache_inspections': 100},
+                  'feed.auditor_cache_inspections': 100,
+                  'grants.checkpoints': 100,
+                  'grants.checkpoint_users_judged': 150,
+                  'grants.oneshot_requests': 1500,
+                  'grants.oneshot_obligations': 1500,
+                  'grants.oneshot_backfill_obligations': 100,
+                  'grants.entries_delivered': 600,
+                  'grants.triggered_entries_delivered': 100,
+                  'grants.role_swaps_same_size': 15},
  'race_files': ['db/changes.go', 'db/channel_cache.go', 'db/channel_cache_single.go', 'db/change_cache.go', 'db/changes_view.go',
                 'db/change_listener.go', 'channels/log_entry.go'],
  'race_state': ['logs', 'c.logs', 'validFrom', 'c.validFrom', 'cachedDocIDs', 'c.cachedDocIDs', 'highCacheSequence', 'c.highCacheSequence',
@@ -47,6 +61,11 @@ CHECK = {'level': 'exploration',
                  'grants and changing admin grants are covered by the structural and differential oracles only',
                  'component part: the query handler is a model of the channels view (per document its latest channel event, limit over rows of '
                  'every kind, active_only re-query loop); skipped sequences are modelled as stored-but-not-yet-fed events',
+                 'grants part: the channels the requester can see are taken from the grant model and the oracles are applied to a user at a '
+                 'checkpoint only when the gateway itself reports the same channels for that user (a difference is property C03\'s subject and is '
+                 'counted); after each grant-document write the actor loads every principal once so that the open C03 finding (a recomputation '
+                 'racing a second grant write is saved as clean) does not blur the requester\'s access; revocation-style notices for channels the '
+                 'user lost are not demanded (the property demands notices for documents that left a channel)',
                  'rosmar answers channel queries through views; the GSI/N1QL query path (active_only filtering inside the query, star-channel '
                  'index) is not exercised']}
 
@@ -60,7 +79,10 @@ META = {'technique': 'runtime monitoring: exact differential of the real changes
                'static-grant requesters are checked against a document model (current revision present, leavers notified, nothing foreign, '
                'active_only exact). The real singleChannelCacheImpl is driven through every operation sequence up to length 5 (6/7 thorough) with '
                'its invariants and every GetChanges(since, limit, active_only) judged against a model. Writers race continuous and long-poll feeds '
-               'under -race with an auditor on the cache locks. Exploration: held on the executions produced.',
+               'under -race with an auditor on the cache locks. Open continuous / long-poll feeds and one-shot requests of users whose admin channels, '
+               'admin roles (incl. same-size swaps), role channels and access()/role() grants change while the feeds are open are judged against a '
+               'grant model: every open feed must be sent the current revision of everything its user can see now, a continuous feed must not end '
+               'while its request is live, and a one-shot request from an earlier position must back-fill channels obtained since. Exploration: held on the executions produced.',
  'level_note': 'Trusted: the 60-line document model (winner rule, channels from the body), the model of the channels view used at component level, '
                'rosmar views as the back-fill query. Bounded universe (6 documents, 3 channels, 8 requesters, <= 28 writes). Continuous delivery is '
                'decided by a state predicate; anything else that does not finish is inconclusive. REST-level rows/last_seq are not covered here.'}
